@@ -6,6 +6,9 @@
 -/
 import PyModeS.Properties.C01
 import PyModeS.Tie.Crc
+
+-- symbolic execution of long generated `do` blocks: generous but finite budget (proof times are seconds)
+set_option maxHeartbeats 1000000
 namespace PyModeS.C01Gen
 open PyModeS PyModeS.Py PyModeS.CRC
 
